@@ -16,6 +16,9 @@ def spec(tier):
             obs.append(CH(name=f"protocol_n{n}_ram{lo}", harness="c10.suspend_protocol", sym=sym, fixed=fixed, timeout=600))
     # the same protocol at 2 and 4 ticks per second (write-out = floor(ram*tps/20) ticks)
     for tp in (2, 4):
+        if th:
+            obs.append(CH(name=f"protocol_n3_tps{tp}", harness="c10.suspend_protocol", sym=dict(ram=I(1, 45), s=I(0, 9), d0=I(1, 2), d1=I(1, 2), d2=I(1, 2)),
+                          fixed=dict(n=3, s2=-1, dB=3, rB=7, K=20, tps=tp), timeout=2400))
         obs.append(CH(name=f"protocol_n2_tps{tp}", harness="c10.suspend_protocol", sym=dict(ram=I(1, 45), s=I(0, 6), d0=I(1, 2), d1=I(1, 2)),
                       fixed=dict(n=2, s2=-1, dB=3, rB=7, K=16, d2=1, tps=tp), timeout=900))
     # second request / bystander timing
